@@ -13,19 +13,19 @@ from pbt.harness import PropertyViolation, Inconclusive
 ID = "C05"
 TITLE = "Exact stochastic simulation samples the continuous-time Markov chain's law"
 RULE = ("Three generated families with closed-form laws: (i) linear progression chains of 2-4 compartments with per-capita rates in "
-        "[0.1,5], N in [5,50] individuals and horizon with k*T in [0.2,3]: occupancy at T summed over M runs is Binomial(N*M, p_j(T)) "
+        "[0.1,5], N in [5,50] individuals and horizon with k*T in [0.2,3]: occupancy at T summed over M runs is Binomial(N*M, p_j(T)), read either from the raw path of a scalar-horizon run or from the gridded output solve_stochast(grid, M, exact=True) at every requested time incl. the last one, "
         "with p(T) from the matrix exponential of the chain generator; (ii) SIR with N in [8,30], R0 in [0.5,4] run to extinction: "
         "final-size pmf from dynamic programming over the embedded jump chain, one exact binomial test per size class (classes with "
         "expected count < 20 pooled); (iii) 2-4 competing constant/linear events from a fixed state, M independent first steps of the "
         "first-reaction step function: sum of waiting times ~ Gamma(M, total rate), counts below the theoretical 25/50/75% quantiles and "
-        "event-identity counts ~ Binomial. Every test uses an exact acceptance region at alpha = 1e-8/2000 (<= 2000 tests per run). "
+        "event-identity counts ~ Binomial. Every test uses an exact acceptance region at alpha = 1e-8/20000 (<= 20000 tests per run). "
         "Non-trivial = every tested category has expected count >= 20; distinct by parameter tuple.")
 ASSUMPTIONS = [
-    "Bonferroni budget: at most 2000 exact tests per run of the check, each at alpha=5e-12, so a false alarm has probability < 1e-8 per run",
+    "Bonferroni budget: at most 20000 exact tests per run of the check, each at alpha=5e-13, so a false alarm has probability < 1e-8 per run",
     "quick tier (M=8000) has power only against rate errors above ~8%; the thorough tier (M=40000) reaches ~4%",
     "closed-form laws are computed independently (scipy.linalg.expm, own DP) and never from PyGOM",
 ]
-BUDGET = {"quick": (4, 3), "thorough": (16, 4)}
+BUDGET = {"quick": (4, 8), "thorough": (16, 12)}
 TECHNIQUE = "property-based testing (Hypothesis @given over rates, sizes, horizons, seeds) with exact binomial/gamma acceptance regions against closed-form CTMC laws"
 LEVEL_TEXT = ("Statistical exploration: empirical distributions over thousands of seeded runs are compared with closed-form laws using "
               "exact acceptance regions whose total false-alarm probability per run is below 1e-8.")
@@ -49,8 +49,13 @@ def strategy(tier):
             n = draw(st.integers(2, 4))
             ks = [draw(S.fl(0.1, 5.0, 3)) for _ in range(n - 1)]
             kT = draw(S.fl(0.2, 3.0, 3))
-            return {"family": fam, "k": ks, "N": draw(st.integers(5, 50)), "T": S.sig(kT / max(ks), 4), "M": M // 4,
-                    "np_seed": seed}
+            c = {"family": fam, "k": ks, "N": draw(st.integers(5, 50)), "T": S.sig(kT / max(ks), 4), "M": M // 4,
+                 "np_seed": seed, "entry": draw(st.sampled_from(["scalar", "grid"]))}
+            if c["entry"] == "grid":
+                # the same law read through the gridded output: every requested time, the last one (= horizon) included
+                fr = sorted(set(draw(st.lists(st.sampled_from([0.2, 0.35, 0.5, 0.65, 0.8]), min_size=1, max_size=3))))
+                c["grid_fractions"] = fr + [1.0]
+            return c
         if fam == "sir":
             N = draw(st.integers(8, 30))
             gamma = draw(S.fl(0.3, 2.0, 3))
@@ -126,20 +131,41 @@ def oracle(case, rec):
         m = _chain_model(ks)
         su = {"x0": [N] + [0] * (n - 1), "theta": ks, "t0": 0.0}
         model, order = stoch.prepare(m, su)
-        Xs, _c, Ts = stoch.simulate("C05", "C05/chain", case, stoch.run_raw, model, T, M, True, case["np_seed"])
-        occ = np.zeros(n)
-        for X, tt in zip(Xs, Ts):
-            idx = int(np.searchsorted(np.asarray(tt, float), T, side="right") - 1)
-            occ += np.asarray(X, float)[idx]
         Q = np.zeros((n, n))
         for i, k in enumerate(ks):
             Q[i, i] -= k
             Q[i, i + 1] += k
-        p = expm(Q * T)[0]
-        for j in range(n):
-            _check_count("C05/chain/occupancy", case, "occupancy of compartment %d at T=%g" % (j + 1, T), int(occ[j]), N * M, float(p[j]))
-            tests += 1
-            min_expected = min(min_expected, N * M * min(p[j], 1 - p[j]))
+        rec.label("chain-entry:" + case.get("entry", "scalar"))
+        if case.get("entry") == "grid":
+            grid = np.array([0.0] + [f * T for f in case["grid_fractions"]])
+            Xs, _c, _t = stoch.simulate("C05", "C05/chain-grid", case, stoch.run_raw, model, grid, M, True, case["np_seed"])
+            tot = np.zeros((len(grid), n))
+            for X in Xs:
+                X = np.asarray(X, float)
+                if X.shape != (len(grid), n):
+                    raise PropertyViolation("C05/chain-grid/shape", "gridded output has shape %s for %d times and %d states" % (
+                        X.shape, len(grid), n), case)
+                tot += X
+            for kk in range(1, len(grid)):
+                pk = expm(Q * grid[kk])[0]
+                for j in range(n):
+                    _check_count("C05/chain-grid/occupancy", case, "gridded occupancy of compartment %d at t=%g (grid point %d of %d)" % (
+                        j + 1, grid[kk], kk, len(grid) - 1), int(tot[kk, j]), N * M, float(pk[j]))
+                    tests += 1
+                    min_expected = min(min_expected, N * M * min(pk[j], 1 - pk[j]))
+            p = expm(Q * T)[0]
+            occ = tot[-1]
+        else:
+            Xs, _c, Ts = stoch.simulate("C05", "C05/chain", case, stoch.run_raw, model, T, M, True, case["np_seed"])
+            occ = np.zeros(n)
+            for X, tt in zip(Xs, Ts):
+                idx = int(np.searchsorted(np.asarray(tt, float), T, side="right") - 1)
+                occ += np.asarray(X, float)[idx]
+            p = expm(Q * T)[0]
+            for j in range(n):
+                _check_count("C05/chain/occupancy", case, "occupancy of compartment %d at T=%g" % (j + 1, T), int(occ[j]), N * M, float(p[j]))
+                tests += 1
+                min_expected = min(min_expected, N * M * min(p[j], 1 - p[j]))
     elif fam == "sir":
         N, I0, beta, gamma = case["N"], case["I0"], case["beta"], case["gamma"]
         m = _sir_model()
